@@ -525,9 +525,9 @@ func (a *Act) enterLoop(li *loopInfo, st *State) *State {
 			if strings.HasPrefix(string(s), "(Array Int (Array Str") {
 				ks = "Str"
 			}
-			a.vc.lines = append(a.vc.lines, fmt.Sprintf("(assert (forall ((r!f Int) (j!f %s)) (! (=> %s (= (select (select %s r!f) j!f) (select (select %s r!f) j!f))) :pattern ((select (select %s r!f) j!f)))))", ks, and(conds...), hv, cur, hv))
+			a.vc.lines = append(a.vc.lines, fmt.Sprintf("(assert (forall ((r!f Int) (j!f %s)) (! (=> %s (= (select (select %s r!f) j!f) (select (select %s r!f) j!f))) :pattern ((select (select %s r!f) j!f)) :pattern ((select (select %s r!f) j!f)))))", ks, and(conds...), hv, cur, hv, cur))
 		} else {
-			a.vc.lines = append(a.vc.lines, fmt.Sprintf("(assert (forall ((r!f Int)) (! (=> %s (= (select %s r!f) (select %s r!f))) :pattern ((select %s r!f)))))", and(conds...), hv, cur, hv))
+			a.vc.lines = append(a.vc.lines, fmt.Sprintf("(assert (forall ((r!f Int)) (! (=> %s (= (select %s r!f) (select %s r!f))) :pattern ((select %s r!f)) :pattern ((select %s r!f)))))", and(conds...), hv, cur, hv, cur))
 		}
 		nst.mem.m[c] = hv
 	}
